@@ -23,6 +23,7 @@ const modPath = "github.com/makiuchi-d/gozxing"
 type Ctx struct {
 	Tier     string
 	Seed     int
+	Canon    int // comparisons reoriented by canonicaliseComparisons
 	Fset     *token.FileSet
 	Pkgs     map[string]*packages.Package // by import path, repository packages only
 	PkgList  []*packages.Package
@@ -71,6 +72,9 @@ func loadRepo(dir string) (*Ctx, error) {
 	sort.Slice(pkgs, func(i, j int) bool { return pkgs[i].PkgPath < pkgs[j].PkgPath })
 	c.PkgList = pkgs
 	c.Fset = pkgs[0].Fset
+	if os.Getenv("GZ_NOCANON") == "" {
+		c.Canon = canonicaliseComparisons(repoOnly(pkgs)) + canonicaliseUpdates(repoOnly(pkgs))
+	}
 	prog, spkgs := ssautil.AllPackages(pkgs, ssa.InstantiateGenerics)
 	prog.Build()
 	c.Prog = prog
@@ -334,4 +338,14 @@ func shortObj(o types.Object) string {
 		return p + "." + o.Name()
 	}
 	return o.Name()
+}
+
+func repoOnly(pkgs []*packages.Package) []*packages.Package {
+	var out []*packages.Package
+	for _, p := range pkgs {
+		if strings.HasPrefix(p.PkgPath, modPath) {
+			out = append(out, p)
+		}
+	}
+	return out
 }
